@@ -328,3 +328,8 @@ def run(ctx: Ctx):
     if rec_key is not None and not rk_ok:
         ctx.fail(cons + "#record", rec.loc(), f"_record_answer files the answered id under "
                  f"`{rec_key}`, which is not the origin recorded on reception")
+    from . import c20
+    ctx.include(c20.run, {"C20-R4"}, "C17-R4",
+                "the 5012 rejection actually carries its Result-Code: what _generate_answer "
+                "returns encodes the attributes set on it", floor=2,
+                constructs=lambda c: "untyped" in c and "Node." in c)
